@@ -64,4 +64,12 @@ theorem carry_eq : Extracted.ownFns = ownFns ∧ ∀ fns : List Fn, carry fns = 
   refine ⟨by decide, fun fns => ?_⟩
   rfl
 
+/-- `application.apply`'s `changed`, on the atoms of a cycle whose JSON patch was not written, is the model's
+`changedUnwritten`: with dict content the merge response's version decides; without it only a rejected JSON
+patch (which leaves a remaining patch, and can only be rejected if there were fns) counts as a change. -/
+theorem changed_eq (cycMerge cycChanges rejected fnsNonEmpty : Bool) (h : rejected = true → fnsNonEmpty = true) :
+    Extracted.changed ⟨cycMerge || fnsNonEmpty, !cycMerge, rejected, cycChanges⟩ =
+      changedUnwritten cycMerge cycChanges rejected := by
+  cases cycMerge <;> cases cycChanges <;> cases rejected <;> cases fnsNonEmpty <;> simp_all [Extracted.changed, changedUnwritten]
+
 end Kopf.C06.Tie
